@@ -9,6 +9,7 @@ import (
 	"github.com/ipfs/go-cid"
 	carv2 "github.com/ipld/go-car/v2"
 	carstorage "github.com/ipld/go-car/v2/storage"
+	"github.com/ipld/go-car/v2/verifhook"
 	"github.com/ipld/go-ipld-prime"
 	"github.com/ipld/go-ipld-prime/linking"
 	ipldstorage "github.com/ipld/go-ipld-prime/storage"
@@ -91,8 +92,11 @@ func (dcw *DeferredCarWriter) OnPut(cb func(int), once bool) {
 
 // Has returns false if the key was not already written to the CAR output.
 func (dcw *DeferredCarWriter) Has(ctx context.Context, key string) (bool, error) {
+	verifhook.Gate(dcw, "Has", "pre")
 	dcw.lk.Lock()
 	defer dcw.lk.Unlock()
+	verifhook.Gate(dcw, "Has", "locked")
+	defer verifhook.Gate(dcw, "Has", "unlocking")
 
 	if dcw.closed {
 		return false, carstorage.ErrClosed
@@ -113,8 +117,11 @@ func (dcw *DeferredCarWriter) Has(ctx context.Context, key string) (bool, error)
 // Put writes the given content to the CAR output stream, creating it if it
 // doesn't exist yet.
 func (dcw *DeferredCarWriter) Put(ctx context.Context, key string, content []byte) error {
+	verifhook.Gate(dcw, "Put", "pre")
 	dcw.lk.Lock()
 	defer dcw.lk.Unlock()
+	verifhook.Gate(dcw, "Put", "locked")
+	defer verifhook.Gate(dcw, "Put", "unlocking")
 
 	if dcw.closed {
 		return carstorage.ErrClosed
@@ -164,8 +171,11 @@ func (dcw *DeferredCarWriter) writer() (carstorage.WritableCar, error) {
 
 // Close closes the underlying file, if one was created.
 func (dcw *DeferredCarWriter) Close() (err error) {
+	verifhook.Gate(dcw, "Close", "pre")
 	dcw.lk.Lock()
 	defer dcw.lk.Unlock()
+	verifhook.Gate(dcw, "Close", "locked")
+	defer verifhook.Gate(dcw, "Close", "unlocking")
 
 	if dcw.closed {
 		return carstorage.ErrClosed
